@@ -4,6 +4,7 @@ package corpus
 
 import (
 	"encoding/json"
+	"github.com/invopop/yaml"
 	"os"
 	"path/filepath"
 	"sort"
@@ -68,6 +69,41 @@ func Invoices() []Item {
 	for _, it := range Golden() {
 		if it.Type == "bill/invoice" {
 			out = append(out, it)
+		}
+	}
+	return out
+}
+
+// Source is an example *input* document as shipped (YAML or JSON), converted
+// to JSON. Sources still carry legacy forms that calculation migrates.
+type Source struct {
+	Rel  string
+	JSON []byte
+}
+
+// Sources returns the example inputs under examples/*/ (not the out/ folders).
+func Sources() []Source {
+	var out []Source
+	repo := ev.Repo()
+	for _, g := range []string{"examples/*/*.yaml", "examples/*/*.json", "regimes/common/examples/*.yaml", "note/examples/*.yaml"} {
+		files, _ := filepath.Glob(filepath.Join(repo, g))
+		sort.Strings(files)
+		for _, f := range files {
+			b, err := os.ReadFile(f)
+			if err != nil {
+				continue
+			}
+			if strings.HasSuffix(f, ".yaml") {
+				if b, err = yaml.YAMLToJSON(b); err != nil {
+					continue
+				}
+			}
+			var probe map[string]any
+			if json.Unmarshal(b, &probe) != nil || probe["$schema"] == nil {
+				continue
+			}
+			rel, _ := filepath.Rel(repo, f)
+			out = append(out, Source{Rel: rel, JSON: b})
 		}
 	}
 	return out
